@@ -80,3 +80,34 @@ package tensor
 //@   ensures [copy] old(isViewLike(t)) ==> typeis(result, "*tensor.Dense") && fresh(asptr("tensor.Dense", result)) && fresh(asptr("tensor.Dense", result).Raw)
 //@   ensures [source] t.Raw == old(t.Raw) && t.shape == old(t.shape) && t.strides == old(t.strides) && unchanged(t.shape) && unchanged(t.strides)
 //@   assigns nothing
+
+// ---- stacking: the storage-order fast path is only taken when no operand needs an iterator (C10) ----
+// ghost field simplestack(dst): 1 after the contiguous block copy, 0 after the view-aware (iterator) stacking
+
+//@ func tensor.StdEng.denseSimpleStack
+//@   trusted
+//@   ensures [same] result == retVal
+//@   ensures [mode] gh("simplestack", asptr("tensor.Dense", retVal)) == 1
+//@   assigns whole(asptr("tensor.Dense", retVal).Raw), gh("simplestack", asptr("tensor.Dense", retVal))
+
+//@ func tensor.StdEng.denseViewStack
+//@   trusted
+//@   ensures [same] result0 == retVal
+//@   ensures [mode] gh("simplestack", asptr("tensor.Dense", retVal)) == 0
+//@   assigns whole(asptr("tensor.Dense", retVal).Raw), gh("simplestack", asptr("tensor.Dense", retVal))
+
+//@ spec needsIter(t) bool = !(len(t.Raw) / rsize(t.t) == 1) && ((t.AP.o & NonContiguous) != DataOrder(0) || !apIsZero(t.old) || len(t.mask) == len(t.Raw) / rsize(t.t))
+
+//@ func tensor.StdEng.StackDense
+//@   props C10
+//@   mode rank asptr("tensor.Dense", t).shape
+//@   config devirt tensor.DenseTensor=*tensor.Dense
+//@   config frame any
+//@   let d = asptr("tensor.Dense", t)
+//@   let n = len(asptr("tensor.Dense", t).shape)
+//@   requires [dyn] typeis(t, "*tensor.Dense") && (forall j :: 0 <= j && j < len(others) ==> typeis(others[j], "*tensor.Dense"))
+//@   requires [dims] forall i :: 0 <= i && i < n ==> d.shape[i] >= 0
+//@   requires [axis] axis >= 0
+//@   ensures [bad_axis] axis > n ==> err != nil
+//@   ensures [fast_path_only_for_plain] err == nil && gh("simplestack", asptr("tensor.Dense", retVal)) == 1 ==> old(!needsIter(d)) && (forall j :: 0 <= j && j < len(others) ==> old(!needsIter(asptr("tensor.Dense", others[j]))))
+//@   loop 1 invariant [scan] 0 <= _i && _i <= len(others) && err == nil && (allNoMat <==> (old(!needsIter(d)) && (forall j :: 0 <= j && j < _i ==> old(!needsIter(asptr("tensor.Dense", others[j]))))))
